@@ -111,6 +111,37 @@ def search(stop_at=1):
                 fails.append({"predicate": pname, "object": aname, "failure": f"{pname}({aname}) = {got}, expected {exp}"})
                 if stop_at and len(fails) >= stop_at:
                     return fails, n, n
+    # subscripted forms: Python's own answer is the runtime class of the annotation object (a parameterised alias of either
+    # family, or a PEP 604 union) - whatever its arguments are, the empty fixed tuple `tuple[()]` included
+    T = typing.TypeVar("T")
+
+    class G(typing.Generic[T]):
+        pass
+    forms = [("tuple[()]", tuple[()]), ("Tuple[()]", typing.Tuple[()]), ("tuple[int]", tuple[int]), ("tuple", tuple), ("typing.Tuple", typing.Tuple),
+             ("list[int]", list[int]), ("typing.List", typing.List), ("list", list), ("dict[str,int]", dict[str, int]), ("int|str", int | str),
+             ("Union[int,str]", typing.Union[int, str]), ("Optional[int]", typing.Optional[int]), ("int", int), ("G", G), ("G[int]", G[int]),
+             ("Literal[1]", typing.Literal[1]), ("abc.Mapping[str,int]", collections.abc.Mapping[str, int]), ("abc.Mapping", collections.abc.Mapping),
+             ("type[int]", type[int])]
+    for aname, a in forms:
+        n += 1
+        exp = isinstance(a, (types.GenericAlias, typing._GenericAlias, types.UnionType))
+        try:
+            got = bool(inspection.issubscriptedgeneric(a))
+            msg = None if got == exp else f"issubscriptedgeneric({aname}) = {got}, the annotation object is {'' if exp else 'not '}a parameterised form"
+        except Exception as e:
+            msg = f"issubscriptedgeneric({aname}) raised {e!r}"
+        if msg:
+            fails.append({"predicate": "issubscriptedgeneric", "object": aname, "failure": msg})
+            if stop_at and len(fails) >= stop_at:
+                return fails, n, n
+    for aname, a, exp in (("tuple[()]", tuple[()], True), ("Tuple[()]", typing.Tuple[()], True), ("tuple[int,str]", tuple[int, str], True),
+                          ("tuple[int,...]", tuple[int, ...], False), ("tuple", tuple, False), ("list[int]", list[int], False)):
+        n += 1
+        got = bool(inspection.isfixedtupletype(a))
+        if got != exp:
+            fails.append({"predicate": "isfixedtupletype", "object": aname, "failure": f"isfixedtupletype({aname}) = {got}, expected {exp}"})
+            if stop_at and len(fails) >= stop_at:
+                return fails, n, n
     return fails, n, n
 
 
